@@ -359,4 +359,23 @@ def handleFatal : Handler := fun i o => do
              (match jint o "nilErrors" with | .ok n => if n > 0 then ["fatal:nil-error-event"] else [] | _ => []),
            region := region }
 
+
+/-- domain `watcher-unsched`: an unschedulable pod is InProgress inside the schedule window and Failed after it, without any
+change of the object; the reporter's delayed re-read must deliver that last status unless the object changed or vanished first -/
+def handleUnsched : Handler := fun i o => do
+  let thenS ← jstr i "then"
+  let want : List String := match thenS with
+    | "scheduled" => ["InProgress", "Current"]
+    | "deleted" => ["InProgress", "NotFound"]
+    | _ => ["InProgress", "Failed"]
+  let m := Json.mkObj [("panic", false), ("closed", true), ("errors", (0 : Nat)), ("seq", strsToJson want),
+                        ("final", Json.str (want.getLast?.getD "")), ("foreign", (0 : Nat))]
+  let seq ← strList (← jget o "seq")
+  let fin ← jstr o "final"
+  -- the property: the last event reflects the final cluster state (as the library computes it at the end), no error, closed
+  let spec := !(jboolD o "panic" true) && jboolD o "closed" false && (jint o "errors").toOption == some 0 &&
+              (jint o "foreign").toOption == some 0 && seq.getLast? == some fin
+  return { model := m, agree := m == o, spec := spec, specModel := true, nontrivial := true,
+           tags := [s!"unsched:{thenS}", s!"unsched:{(jstr i "scope").toOption.getD "?"}"] }
+
 end CliUtils.Drv.C16
